@@ -5,6 +5,32 @@ any handler, offsets, containment of failures.
 -/
 namespace Ebu.Bus
 
+namespace Persist
+
+
+def lsF (acc : Option Nat) (o : Opt) : Option Nat := match o with | .store sid => some sid | _ => acc
+
+theorem lastStore_eq (opts : List Opt) : lastStore opts = opts.foldl lsF none := rfl
+
+theorem lsF_foldl (opts : List Opt) (acc : Option Nat) :
+    opts.foldl lsF acc = (match opts.foldl lsF none with | some sid => some sid | none => acc) := by
+  induction opts generalizing acc with
+  | nil => simp
+  | cons o opts ih =>
+    simp only [List.foldl_cons]
+    rw [ih, ih (lsF none o)]
+    cases List.foldl lsF none opts <;> cases o <;> rfl
+
+theorem lastStore_cons (o : Opt) (opts : List Opt) :
+    lastStore (o :: opts) = (match lastStore opts with
+      | some sid => some sid
+      | none => lsF none o) := by
+  simp only [lastStore_eq, List.foldl_cons]
+  rw [lsF_foldl]
+
+end Persist
+open Persist
+
 /-- the configuration produced by an option list does not depend on where `WithStore` stands:
 the store is the last `WithStore` given (or the base one), every flag is "was it given" -/
 theorem applyOptions_spec (base : Config) (opts : List Opt) :
@@ -15,13 +41,69 @@ theorem applyOptions_spec (base : Config) (opts : List Opt) :
     c.panicH = (base.panicH || opts.contains .panicH) ∧ c.perrH = (base.perrH || opts.contains .perrH) ∧
     c.obs = (base.obs || opts.contains .obs) ∧ c.maxDepth = base.maxDepth ∧ c.maxCalls = base.maxCalls ∧
     c.bodies = base.bodies := by
-  sorry
+  induction opts generalizing base with
+  | nil => simp [applyOptions, lastStore]
+  | cons o opts ih =>
+    have h := ih (applyOpt base o)
+    simp only [applyOptions, List.foldl_cons] at h ⊢
+    rw [lastStore_cons]
+    obtain ⟨h1, h2, h3, h4, h5, h6, h7, h8, h9, h10, h11⟩ := h
+    rw [h1, h2, h3, h4, h5, h6, h7, h8, h9, h10, h11]
+    cases o <;> cases lastStore opts <;> simp [applyOpt, lsF]
+
+namespace Persist
+
+theorem lastStore_one (opts : List Opt) (sid : Nat) (hone : ∀ o ∈ opts, ∀ k, o = .store k → k = sid) :
+    lastStore opts = if Opt.store sid ∈ opts then some sid else none := by
+  induction opts with
+  | nil => simp [lastStore]
+  | cons o opts ih =>
+    rw [lastStore_cons, ih (fun o ho => hone o (List.mem_cons_of_mem _ ho))]
+    by_cases hm : Opt.store sid ∈ opts
+    · simp [hm]
+    · cases o with
+      | store k =>
+        have := hone (.store k) (List.mem_cons_self) k rfl
+        subst this
+        simp [hm, lsF]
+      | _ => simp [hm, lsF]
+
+end Persist
+open Persist
 
 /-- every permutation of an option list that names one store gives the same bus -/
 theorem applyOptions_perm (base : Config) (opts opts' : List Opt) (sid : Nat)
     (hperm : opts.Perm opts') (hone : ∀ o ∈ opts, ∀ k, o = .store k → k = sid) :
     applyOptions base opts = applyOptions base opts' := by
-  sorry
+  have h1 := applyOptions_spec base opts
+  have h2 := applyOptions_spec base opts'
+  have hone' : ∀ o ∈ opts', ∀ k, o = .store k → k = sid := fun o ho => hone o (hperm.mem_iff.mpr ho)
+  rw [lastStore_one opts sid hone] at h1
+  rw [lastStore_one opts' sid hone'] at h2
+  have hc : ∀ o : Opt, opts'.contains o = opts.contains o := by
+    intro o
+    rw [Bool.eq_iff_iff]
+    simp [hperm.mem_iff]
+  simp only [hc, ← hperm.mem_iff] at h2
+  generalize applyOptions base opts = c1 at h1
+  generalize applyOptions base opts' = c2 at h2
+  cases c1; cases c2
+  simp only [Config.mk.injEq]
+  simp only at h1 h2
+  obtain ⟨a1, a2, a3, a4, a5, a6, a7, a8, a9, a10, a11⟩ := h1
+  obtain ⟨b1, b2, b3, b4, b5, b6, b7, b8, b9, b10, b11⟩ := h2
+  subst a1 a2 a3 a4 a5 a6 a7 a8 a9 a10 a11 b1 b2 b3 b4 b5 b6 b7 b8 b9 b10 b11
+  simp
+
+
+namespace Persist
+
+theorem emitIf_trace (b : Bool) (c : Core) (e : Ev) :
+    (emitIf b c e).trace = c.trace ++ (if b then [e] else []) := by
+  cases b <;> simp [emitIf]
+
+end Persist
+open Persist
 
 /-- what `persistEvent` does, case by case -/
 theorem persist_spec (cfg : Config) (d ty v : Nat) (bad : Bool) (obsParent : Nat) (c : Core) :
@@ -42,7 +124,380 @@ theorem persist_spec (cfg : Config) (d ty v : Nat) (bad : Bool) (obsParent : Nat
         c'.log = c.log ∧ c'.lastOffset = c.lastOffset ∧
         (c'.trace.drop c.trace.length).filter (fun e => isAppend e || (match e with | .perr .. => true | _ => false)) =
           [Ev.append d sid ty v false 0] ++ (if cfg.perrH then [Ev.perr d ty v false] else [])) := by
-  sorry
+  refine ⟨?_, ?_, ?_, ?_⟩
+  · intro h; simp [persist, h]
+  · intro sid h hb; subst hb
+    cases hp : cfg.perrH <;> simp [persist, h, hp, emitIf, Core.emit, Core.trace]
+  · intro sid h hb hf; subst hb
+    have hf' : c.appendFaults.head?.getD false = false := by simpa using hf
+    cases hp : cfg.perrH <;> cases ho : cfg.obs <;>
+      simp [persist, h, hp, ho, hf', emitIf, Core.emit, Core.trace, isAppend]
+  · intro sid h hb hf; subst hb
+    have hf' : c.appendFaults.head?.getD false = true := by simpa using hf
+    cases hp : cfg.perrH <;> cases ho : cfg.obs <;>
+      simp [persist, h, hp, ho, hf', emitIf, Core.emit, Core.trace, isAppend]
+
+
+
+namespace Persist
+
+/-! ### the unary invariant: offsets / log / trace growth -/
+
+def OffInv (c : Core) : Prop :=
+  okOffsets c.trace = (List.range c.log.length).map (· + 1) ∧ c.lastOffset = c.log.length
+
+/-- everything we need to know about how one piece of the semantics moves the `Core` -/
+structure T (c c' : Core) : Prop where
+  tr : ∃ l, c'.trace = c.trace ++ l
+  lg : ∃ l, c'.log = c.log ++ l
+  inv : OffInv c → OffInv c'
+
+theorem T.refl (c : Core) : T c c := ⟨⟨[], by simp⟩, ⟨[], by simp⟩, id⟩
+
+theorem T.trans {a b c : Core} (h1 : T a b) (h2 : T b c) : T a c := by
+  obtain ⟨⟨l1, e1⟩, ⟨m1, f1⟩, i1⟩ := h1
+  obtain ⟨⟨l2, e2⟩, ⟨m2, f2⟩, i2⟩ := h2
+  exact ⟨⟨l1 ++ l2, by rw [e2, e1, List.append_assoc]⟩, ⟨m1 ++ m2, by rw [f2, f1, List.append_assoc]⟩,
+    fun h => i2 (i1 h)⟩
+
+theorem T.same {c c' : Core} (h1 : c'.rtrace = c.rtrace) (h2 : c'.log = c.log)
+    (h3 : c'.lastOffset = c.lastOffset) : T c c' := by
+  refine ⟨⟨[], by simp [Core.trace, h1]⟩, ⟨[], by simp [h2]⟩, ?_⟩
+  simp only [OffInv, Core.trace, h1, h2, h3]
+  exact id
+
+theorem okOffsets_append (l1 l2 : List Ev) : okOffsets (l1 ++ l2) = okOffsets l1 ++ okOffsets l2 := by
+  simp [okOffsets, List.filterMap_append]
+
+theorem okOffsets_single (e : Ev) (h : isAppend e = false) : okOffsets [e] = [] := by
+  cases e <;> simp [okOffsets, isAppend] at h ⊢
+
+theorem T.emit (c : Core) (e : Ev) (h : okOffsets [e] = []) : T c (c.emit e) := by
+  refine ⟨⟨[e], by simp⟩, ⟨[], by simp [Core.emit]⟩, ?_⟩
+  intro ⟨h1, h2⟩
+  refine ⟨?_, h2⟩
+  rw [Core.trace_emit, okOffsets_append, h, List.append_nil, h1]
+  rfl
+
+theorem T.emitIf (b : Bool) (c : Core) (e : Ev) (h : okOffsets [e] = []) : T c (emitIf b c e) := by
+  cases b
+  · exact T.refl c
+  · exact T.emit c e h
+
+theorem T.persist (cfg : Config) (d ty v : Nat) (bad : Bool) (op : Nat) (c : Core) :
+    T c (persist cfg d ty v bad op c) := by
+  unfold Ebu.Bus.persist
+  cases cfg.store with
+  | none => exact T.refl c
+  | some sid =>
+    simp only
+    cases bad with
+    | true => exact T.emitIf _ _ _ rfl
+    | false =>
+      simp only [Bool.false_eq_true, if_false]
+      refine T.trans (b := if cfg.obs then { c.emit (.obs d .rs c.nextObs op ty false) with nextObs := c.nextObs + 1 } else c) ?_ ?_
+      · split
+        · exact T.trans (T.emit c _ rfl) (T.same rfl rfl rfl)
+        · exact T.refl c
+      · generalize (if cfg.obs then { c.emit (.obs d .rs c.nextObs op ty false) with nextObs := c.nextObs + 1 } else c) = c1
+        refine T.trans ?_ (T.emitIf _ _ _ rfl)
+        refine T.trans ?_ (T.emitIf _ _ _ rfl)
+        refine T.trans (b := { c1 with appendFaults := c1.appendFaults.tail }) (T.same rfl rfl rfl) ?_
+        split
+        · exact T.emit _ _ rfl
+        · refine ⟨⟨[_], Core.trace_emit _ _⟩, ⟨[_], rfl⟩, ?_⟩
+          intro ⟨h1, h2⟩
+          refine ⟨?_, by simp [Core.emit]⟩
+          rw [Core.trace_emit, okOffsets_append]
+          simp only [Core.emit, Core.trace] at h1 ⊢
+          rw [h1]
+          simp [okOffsets, List.range_succ]
+
+/-! ### stages of `publish` -/
+
+section stages
+variable {R : Type} (I : RegImpl R) (cfg : Config)
+
+def pubCtx (fr : Frame) (sel : CtxSel) (s : St R) : Nat × Nat × St R :=
+  match sel with
+  | .bg => (0, 0, s)
+  | .fresh => (s.c.nextCtx, 0, { s with c := { s.c with nextCtx := s.c.nextCtx + 1 } })
+  | .dead => (s.c.nextCtx, 0, { s with c := { s.c with nextCtx := s.c.nextCtx + 1, cancelled := s.c.nextCtx :: s.c.cancelled } })
+  | .inherit => if fr.ctxAware then (fr.root, fr.obs, s) else (0, 0, s)
+
+/-- OnPublishStart and the before hooks -/
+def pubPre (d ty v obs0 : Nat) (s : St R) : St R :=
+  let pid := s.c.nextObs
+  let s := if cfg.obs then { s with c := { s.c.emit (.obs d .ps pid obs0 ty false) with nextObs := pid + 1 } } else s
+  let s := { s with c := emitIf cfg.hookBL s.c (.hook d .bl ty v) }
+  { s with c := emitIf cfg.hookBC s.c (.hook d .bc ty v) }
+
+def pubPost (d ty v pid : Nat) (acc : St R × List Reg) : St R :=
+  let (s, claimed) := acc
+  let s := if claimed.isEmpty then s else { s with reg := I.set s.reg ty (retire claimed (I.get s.reg ty)) }
+  let s := { s with c := emitIf cfg.hookAL s.c (.hook d .al ty v) }
+  let s := { s with c := emitIf cfg.hookAC s.c (.hook d .ac ty v) }
+  { s with c := emitIf cfg.obs s.c (.obs d .pc pid 0 ty false) }
+
+theorem publish_eq (rec : Frame → St R → Action → St R) (fr : Frame) (ty v : Nat) (bad : Bool)
+    (sel : CtxSel) (s : St R) :
+    publish I cfg rec fr ty v bad sel s =
+      (let t := pubCtx fr sel s
+       let pid := t.2.2.c.nextObs
+       let obs := if cfg.obs then pid else t.2.1
+       let s1 := pubPre cfg fr.depth ty v t.2.1 t.2.2
+       let s2 : St R := { s1 with c := persist cfg fr.depth ty v bad obs s1.c }
+       pubPost I cfg fr.depth ty v pid
+         ((I.get s2.reg ty).foldl (deliver cfg rec ty v t.1 obs fr.depth) (s2, []))) := by
+  rfl
+
+def dFilt {R : Type} (d v : Nat) (r : Reg) (s : St R) : St R :=
+  match r.filt with
+  | some _ => { s with c := s.c.emit (.filt d r.rid v (r.accepts v)) }
+  | none => s
+
+def dClaim {R : Type} (r : Reg) (s : St R) : St R :=
+  if r.once then { s with c := { s.c with executed := r.rid :: s.c.executed } } else s
+
+theorem deliver_eq {R : Type} (cfg : Config) (rec : Frame → St R → Action → St R)
+    (ty v root obs d : Nat) (s : St R) (claimed : List Reg) (r : Reg) :
+    deliver cfg rec ty v root obs d (s, claimed) r =
+      (let s1 := dFilt d v r s
+       if !r.accepts v then (s1, claimed)
+       else if !s1.c.live root then (s1, claimed)
+       else if r.once && s1.c.executed.contains r.rid then (s1, claimed)
+       else
+         let s2 := dClaim r s1
+         let claimed' := if r.once then claimed ++ [r] else claimed
+         if r.async then
+           ({ s2 with c := { s2.c with pending := s2.c.pending ++ [⟨r, ty, v, root, obs, d⟩] } }, claimed')
+         else if !s2.c.live root then (s2, claimed')
+         else (callHandler cfg rec r ty v root obs d false s2, claimed')) := by
+  rfl
+
+end stages
+
+/-! ### `T` through one level of the semantics -/
+
+section tstep
+variable {R : Type} (I : RegImpl R) (cfg : Config)
+variable (rec : Frame → St R → Action → St R)
+
+def TR : Prop := ∀ fr s a, T s.c (rec fr s a).c
+
+variable {rec}
+
+theorem runBody_T (h : TR rec) (fr : Frame) (s : St R) (acts : List Action) :
+    T s.c (runBody rec fr s acts).c := by
+  induction acts generalizing s with
+  | nil => exact T.refl _
+  | cons a as ih =>
+    simp only [runBody, List.foldl_cons]
+    refine T.trans ?_ (ih _)
+    split
+    · exact T.refl _
+    · exact h fr s a
+
+theorem enterHandler_T (r : Reg) (ty v root op d : Nat) (async : Bool) (s : St R) :
+    T s.c (enterHandler cfg r ty v root op d async s).1.c := by
+  simp only [enterHandler]
+  refine T.trans (b := (if cfg.obs then { s with c := { s.c.emit (.obs d .hs s.c.nextObs op ty async) with nextObs := s.c.nextObs + 1 } } else s).c) ?_ ?_
+  · split
+    · exact T.trans (T.emit _ _ rfl) (T.same rfl rfl rfl)
+    · exact T.refl _
+  · exact T.trans (T.emit _ _ rfl) (T.same rfl rfl rfl)
+
+theorem bodyResult_T (h : TR rec) (r : Reg) (ty v root op d : Nat) (async : Bool) (s : St R) :
+    T s.c (bodyResult cfg rec r ty v root op d async s).c := by
+  simp only [bodyResult]
+  exact T.trans (enterHandler_T cfg r ty v root op d async s) (runBody_T h _ _ _)
+
+theorem callHandler_T (h : TR rec) (r : Reg) (ty v root op d : Nat) (async : Bool) (s : St R) :
+    T s.c (callHandler cfg rec r ty v root op d async s).c := by
+  simp only [callHandler]
+  refine T.trans (bodyResult_T cfg h r ty v root op d async s) ?_
+  generalize bodyResult cfg rec r ty v root op d async s = s1
+  refine T.trans ?_ (T.emitIf _ _ _ rfl)
+  refine T.trans (T.emit s1.c (.exit (d + 1) r.rid) rfl) ?_
+  refine T.trans (b := { s1.c.emit (.exit (d + 1) r.rid) with panicking := none }) (T.same rfl rfl rfl) ?_
+  split
+  · exact T.emitIf _ _ _ rfl
+  · exact T.refl _
+
+theorem dFilt_T (d v : Nat) (r : Reg) (s : St R) : T s.c (dFilt d v r s).c := by
+  simp only [dFilt]
+  split
+  · exact T.emit _ _ rfl
+  · exact T.refl _
+
+theorem dClaim_T (r : Reg) (s : St R) : T s.c (dClaim r s).c := by
+  simp only [dClaim]
+  split
+  · exact T.same rfl rfl rfl
+  · exact T.refl _
+
+theorem deliver_T (h : TR rec) (ty v root obs d : Nat) (acc : St R × List Reg) (r : Reg) :
+    T acc.1.c (deliver cfg rec ty v root obs d acc r).1.c := by
+  obtain ⟨s, claimed⟩ := acc
+  rw [deliver_eq]
+  simp only
+  refine T.trans (dFilt_T d v r s) ?_
+  generalize dFilt d v r s = s1
+  split
+  · exact T.refl _
+  split
+  · exact T.refl _
+  split
+  · exact T.refl _
+  refine T.trans (dClaim_T r s1) ?_
+  generalize dClaim r s1 = s2
+  split
+  · exact T.same rfl rfl rfl
+  split
+  · exact T.refl _
+  · exact callHandler_T cfg h _ _ _ _ _ _ _ _
+
+theorem loop_T (h : TR rec) (ty v root obs d : Nat) (l : List Reg) (acc : St R × List Reg) :
+    T acc.1.c (l.foldl (deliver cfg rec ty v root obs d) acc).1.c := by
+  induction l generalizing acc with
+  | nil => exact T.refl _
+  | cons r l ih =>
+    simp only [List.foldl_cons]
+    exact T.trans (deliver_T cfg h ty v root obs d acc r) (ih _)
+
+theorem pubCtx_T (fr : Frame) (sel : CtxSel) (s : St R) : T s.c (pubCtx fr sel s).2.2.c := by
+  cases sel <;> simp only [pubCtx]
+  · exact T.refl _
+  · exact T.same rfl rfl rfl
+  · exact T.same rfl rfl rfl
+  · split <;> exact T.refl _
+
+theorem pubPre_T (d ty v obs0 : Nat) (s : St R) : T s.c (pubPre cfg d ty v obs0 s).c := by
+  simp only [pubPre]
+  refine T.trans ?_ (T.emitIf _ _ _ rfl)
+  refine T.trans ?_ (T.emitIf _ _ _ rfl)
+  split
+  · exact T.trans (T.emit _ _ rfl) (T.same rfl rfl rfl)
+  · exact T.refl _
+
+theorem pubPost_T (d ty v pid : Nat) (acc : St R × List Reg) : T acc.1.c (pubPost I cfg d ty v pid acc).c := by
+  obtain ⟨s, claimed⟩ := acc
+  simp only [pubPost]
+  refine T.trans ?_ (T.emitIf _ _ _ rfl)
+  refine T.trans ?_ (T.emitIf _ _ _ rfl)
+  refine T.trans ?_ (T.emitIf _ _ _ rfl)
+  split <;> exact T.refl _
+
+theorem publish_T (h : TR rec) (fr : Frame) (ty v : Nat) (bad : Bool) (sel : CtxSel) (s : St R) :
+    T s.c (publish I cfg rec fr ty v bad sel s).c := by
+  rw [publish_eq]
+  simp only
+  refine T.trans (pubCtx_T fr sel s) ?_
+  refine T.trans (pubPre_T cfg fr.depth ty v (pubCtx fr sel s).2.1 _) ?_
+  refine T.trans ?_ (pubPost_T I cfg _ _ _ _ _)
+  refine T.trans ?_ (loop_T cfg h _ _ _ _ _ _ _)
+  exact T.persist _ _ _ _ _ _ _
+
+theorem runPending_T (h : TR rec) (p : Pending) (s : St R) : T s.c (runPending cfg rec p s).c := by
+  simp only [runPending]
+  split
+  · exact T.refl _
+  · exact callHandler_T cfg h _ _ _ _ _ _ _ _
+
+theorem step_T (h : TR rec) : TR (step I cfg rec) := by
+  intro fr s a
+  cases a <;> simp only [step]
+  case subscribe => exact T.same rfl rfl rfl
+  case unsubscribe => split <;> exact T.emit _ _ rfl
+  case clear => exact T.refl _
+  case clearAll => exact T.refl _
+  case publish =>
+    split
+    · exact T.emit _ _ rfl
+    · exact publish_T I cfg h _ _ _ _ _ _
+  case cancel =>
+    split
+    · exact T.refl _
+    · exact T.same rfl rfl rfl
+  case cancelId =>
+    split
+    · exact T.refl _
+    · exact T.same rfl rfl rfl
+  case panic =>
+    split
+    · exact T.refl _
+    · exact T.same rfl rfl rfl
+  case has => exact T.emit _ _ rfl
+  case count => exact T.emit _ _ rfl
+  case readLog => exact T.emit _ _ rfl
+  case drain =>
+    split
+    · exact T.refl _
+    · split
+      · exact T.refl _
+      · refine T.trans ?_ (h _ _ _)
+        refine T.trans ?_ (runPending_T cfg h _ _)
+        exact T.same rfl rfl rfl
+
+theorem exec_T (n : Nat) : TR (exec I cfg n) := by
+  induction n with
+  | zero => intro fr s a; exact T.same rfl rfl rfl
+  | succ n ih => intro fr s a; exact step_T I cfg ih fr s a
+
+end tstep
+
+end Persist
+open Persist
+
+/-- C09/C13: in every run the log has exactly one record per successful append, and the
+offsets handed out are 1, 2, 3, … in order (distinct, strictly increasing), also across
+failed appends -/
+theorem offsets_increasing {R : Type} (I : RegImpl R) (cfg : Config) (fuel : Nat) (faults : List Bool)
+    (prog : List Action) :
+    let s := run I cfg fuel faults prog
+    okOffsets s.c.trace = (List.range s.c.log.length).map (· + 1) ∧ s.c.lastOffset = s.c.log.length := by
+  show OffInv (run I cfg fuel faults prog).c
+  unfold run
+  have h0 : OffInv (initSt I faults).c := by simp [OffInv, initSt, Core.trace, okOffsets]
+  generalize initSt I faults = s0 at h0
+  induction prog generalizing s0 with
+  | nil => exact h0
+  | cons a as ih =>
+    simp only [List.foldl_cons]
+    exact ih _ ((exec_T I cfg fuel {} s0 a).inv h0)
+
+namespace Persist
+
+/-! ### C09: the record is appended before any handler is entered -/
+
+theorem pubCtx_same {R : Type} (fr : Frame) (sel : CtxSel) (s : St R) :
+    (pubCtx fr sel s).2.2.c.rtrace = s.c.rtrace ∧ (pubCtx fr sel s).2.2.c.log = s.c.log ∧
+    (pubCtx fr sel s).2.2.c.appendFaults = s.c.appendFaults := by
+  cases sel <;> simp only [pubCtx] <;> (try split) <;> simp
+
+theorem pubPre_spec {R : Type} (cfg : Config) (d ty v obs0 : Nat) (s : St R) :
+    ∃ pre, (pubPre cfg d ty v obs0 s).c.trace = s.c.trace ++ pre ∧
+      (∀ e ∈ pre, isEnter e = false ∧ isAppend e = false) ∧
+      (pubPre cfg d ty v obs0 s).c.log = s.c.log ∧
+      (pubPre cfg d ty v obs0 s).c.appendFaults = s.c.appendFaults := by
+  cases h1 : cfg.obs <;> cases h2 : cfg.hookBL <;> cases h3 : cfg.hookBC <;>
+    simp [pubPre, h1, h2, h3, emitIf, Core.emit, Core.trace, isEnter, isAppend]
+
+theorem persist_ok (cfg : Config) (d ty v op : Nat) (c : Core) (sid : Nat) (hstore : cfg.store = some sid)
+    (hok : c.appendFaults.headD false = false) :
+    ∃ pre post, (persist cfg d ty v false op c).trace =
+        c.trace ++ pre ++ [Ev.append d sid ty v true (c.log.length + 1)] ++ post ∧
+      (∀ e ∈ pre, isEnter e = false ∧ isAppend e = false) ∧
+      (persist cfg d ty v false op c).log = c.log ++ [(ty, v)] := by
+  have hf' : c.appendFaults.head?.getD false = false := by simpa using hok
+  cases ho : cfg.obs
+  · refine ⟨[], [], ?_, by simp, ?_⟩ <;>
+      cases hp : cfg.perrH <;> simp [persist, hstore, ho, hp, hf', emitIf, Core.emit, Core.trace]
+  · refine ⟨[.obs d .rs c.nextObs op ty false], [.obs d .rc c.nextObs 0 ty false], ?_, by simp [isEnter, isAppend], ?_⟩ <;>
+      cases hp : cfg.perrH <;> simp [persist, hstore, ho, hp, hf', emitIf, Core.emit, Core.trace]
+
+end Persist
+open Persist
 
 /-- C09: in the events of one publish, the append of its record (when there is a store and
 the event is encodable) comes before every handler entry of that publish, and the log the
@@ -54,16 +509,322 @@ theorem publish_persists_first {R : Type} (I : RegImpl R) (cfg : Config) (n : Na
     ∃ pre post, newTrace s s' = pre ++ [Ev.append fr.depth sid ty v true (s.c.log.length + 1)] ++ post ∧
       (∀ e ∈ pre, isEnter e = false ∧ isAppend e = false) ∧
       (∃ l, s'.c.log = s.c.log ++ (ty, v) :: l) := by
-  sorry
+  intro s'
+  have hs' : s' = publish I cfg (exec I cfg n) fr ty v false sel s := rfl
+  rw [publish_eq] at hs'
+  simp only at hs'
+  obtain ⟨c1, c2, c3⟩ := pubCtx_same fr sel s
+  generalize pubCtx fr sel s = t at hs' c1 c2 c3
+  obtain ⟨root, obs0, s0⟩ := t
+  simp only at hs' c1 c2 c3
+  obtain ⟨pre1, p1, p2, p3, p4⟩ := pubPre_spec cfg fr.depth ty v obs0 s0
+  generalize pubPre cfg fr.depth ty v obs0 s0 = s1 at hs' p1 p3 p4
+  have hok1 : s1.c.appendFaults.headD false = false := by rw [p4, c3]; exact hok
+  obtain ⟨pre2, post2, q1, q2, q3⟩ := persist_ok cfg fr.depth ty v
+    (if cfg.obs then s0.c.nextObs else obs0) s1.c sid hstore hok1
+  generalize persist cfg fr.depth ty v false (if cfg.obs then s0.c.nextObs else obs0) s1.c = c2' at hs' q1 q3
+  have hl := loop_T cfg (exec_T I cfg n) ty v root (if cfg.obs then s0.c.nextObs else obs0) fr.depth
+    (I.get s1.reg ty) (({ reg := s1.reg, c := c2' } : St R), [])
+  have hp := pubPost_T I cfg fr.depth ty v s0.c.nextObs
+    (List.foldl (deliver cfg (exec I cfg n) ty v root (if cfg.obs then s0.c.nextObs else obs0) fr.depth)
+      (({ reg := s1.reg, c := c2' } : St R), []) (I.get s1.reg ty))
+  rw [← hs'] at hp
+  have hT := T.trans hl hp
+  obtain ⟨⟨l, e1⟩, ⟨m, e2⟩, _⟩ := hT
+  simp only at e1 e2
+  have ht0 : s0.c.trace = s.c.trace := by simp [Core.trace, c1]
+  refine ⟨pre1 ++ pre2, post2 ++ l, ?_, ?_, ⟨m, ?_⟩⟩
+  · simp only [newTrace]
+    rw [e1, q1, p1, ht0, p3, c2]
+    simp [List.append_assoc]
+  · intro e he
+    rcases List.mem_append.mp he with he | he
+    · exact p2 e he
+    · exact q2 e he
+  · rw [e2, q3, p3, c2]
+    simp
 
-/-- C09/C13: in every run the log has exactly one record per successful append, and the
-offsets handed out are 1, 2, 3, … in order (distinct, strictly increasing), also across
-failed appends -/
-theorem offsets_increasing {R : Type} (I : RegImpl R) (cfg : Config) (fuel : Nat) (faults : List Bool)
-    (prog : List Action) :
-    let s := run I cfg fuel faults prog
-    okOffsets s.c.trace = (List.range s.c.log.length).map (· + 1) ∧ s.c.lastOffset = s.c.log.length := by
-  sorry
+namespace Persist
+
+/-! ### C13: delivery does not depend on the fault script -/
+
+/-- forget everything a store fault may change -/
+def norm (c : Core) : Core :=
+  { c with log := [], lastOffset := 0, appendFaults := [],
+           rtrace := c.rtrace.filter (fun e => !isPersistEv e) }
+
+theorem norm_eq_iff (c1 c2 : Core) : norm c1 = norm c2 ↔
+    c1.nextRid = c2.nextRid ∧ c1.executed = c2.executed ∧ c1.cancelled = c2.cancelled ∧
+    c1.nextCtx = c2.nextCtx ∧ c1.pending = c2.pending ∧
+    c1.rtrace.filter (fun e => !isPersistEv e) = c2.rtrace.filter (fun e => !isPersistEv e) ∧
+    c1.panicking = c2.panicking ∧ c1.nextObs = c2.nextObs ∧ c1.calls = c2.calls ∧
+    c1.outOfFuel = c2.outOfFuel := by
+  simp only [norm, Core.mk.injEq, true_and]
+
+def RS {R : Type} (s1 s2 : St R) : Prop := s1.reg = s2.reg ∧ norm s1.c = norm s2.c
+
+theorem RS.refl {R : Type} (s : St R) : RS s s := ⟨rfl, rfl⟩
+
+theorem ite_pair {α : Type} {p : Prop} [Decidable p] {a1 b1 a2 b2 : α} (Q : α → α → Prop)
+    (ht : p → Q a1 a2) (he : ¬p → Q b1 b2) : Q (if p then a1 else b1) (if p then a2 else b2) := by
+  split
+  · exact ht ‹_›
+  · exact he ‹_›
+
+section rstep
+variable {R : Type} (I : RegImpl R) (cfg : Config)
+
+/-- brute force for straight-line pieces -/
+local macro "rs_brute" : tactic => `(tactic|
+  (simp only [RS, norm_eq_iff] at *
+   simp_all [emitIf, Core.emit, List.filter_cons, isPersistEv]))
+
+theorem enterHandler_RS (r : Reg) (ty v root op d : Nat) (async : Bool) {s1 s2 : St R} (h : RS s1 s2) :
+    RS (enterHandler cfg r ty v root op d async s1).1 (enterHandler cfg r ty v root op d async s2).1 ∧
+    (enterHandler cfg r ty v root op d async s1).2 = (enterHandler cfg r ty v root op d async s2).2 := by
+  obtain ⟨r1, c1⟩ := s1; obtain ⟨r2, c2⟩ := s2
+  cases ho : cfg.obs <;> simp only [enterHandler, ho] <;> rs_brute
+
+
+variable (rec : Frame → St R → Action → St R)
+
+def RR : Prop := ∀ fr a (s1 s2 : St R), RS s1 s2 → RS (rec fr s1 a) (rec fr s2 a)
+
+variable {rec}
+
+theorem runBody_RS (h : RR rec) (fr : Frame) (acts : List Action) {s1 s2 : St R} (hs : RS s1 s2) :
+    RS (runBody rec fr s1 acts) (runBody rec fr s2 acts) := by
+  induction acts generalizing s1 s2 with
+  | nil => exact hs
+  | cons a as ih =>
+    simp only [runBody, List.foldl_cons]
+    apply ih
+    have hp : s1.c.panicking = s2.c.panicking := ((norm_eq_iff _ _).mp hs.2).2.2.2.2.2.2.1
+    rw [hp]
+    exact ite_pair RS (fun _ => hs) (fun _ => h fr a s1 s2 hs)
+
+theorem bodyResult_eq (r : Reg) (ty v root op d : Nat) (async : Bool) (s : St R) :
+    bodyResult cfg rec r ty v root op d async s =
+      runBody rec { depth := d + 1, root := root, obs := (enterHandler cfg r ty v root op d async s).2,
+                    ctxAware := r.ctxAware }
+        (enterHandler cfg r ty v root op d async s).1 (cfg.bodies.getD r.body []) := rfl
+
+theorem bodyResult_RS (h : RR rec) (r : Reg) (ty v root op d : Nat) (async : Bool) {s1 s2 : St R}
+    (hs : RS s1 s2) :
+    RS (bodyResult cfg rec r ty v root op d async s1) (bodyResult cfg rec r ty v root op d async s2) := by
+  rw [bodyResult_eq, bodyResult_eq]
+  obtain ⟨e1, e2⟩ := enterHandler_RS cfg r ty v root op d async hs
+  rw [e2]
+  exact runBody_RS h _ _ e1
+
+def chPost (r : Reg) (ty v d hid : Nat) (s : St R) : St R :=
+  let s : St R := { s with c := s.c.emit (.exit (d + 1) r.rid) }
+  let pv := s.c.panicking
+  let s : St R := { s with c := { s.c with panicking := none } }
+  let s : St R := match pv with
+    | some val => { s with c := emitIf cfg.panicH s.c (.panich d r.ctxAware ty v val) }
+    | none => s
+  { s with c := emitIf cfg.obs s.c (.obs d .hc hid 0 ty pv.isSome) }
+
+theorem callHandler_eq (r : Reg) (ty v root op d : Nat) (async : Bool) (s : St R) :
+    callHandler cfg rec r ty v root op d async s =
+      chPost cfg r ty v d s.c.nextObs (bodyResult cfg rec r ty v root op d async s) := rfl
+
+theorem chPost_RS (r : Reg) (ty v d hid : Nat) {s1 s2 : St R} (hs : RS s1 s2) :
+    RS (chPost cfg r ty v d hid s1) (chPost cfg r ty v d hid s2) := by
+  obtain ⟨r1, c1⟩ := s1; obtain ⟨r2, c2⟩ := s2
+  have hp : c1.panicking = c2.panicking := ((norm_eq_iff _ _).mp hs.2).2.2.2.2.2.2.1
+  simp only [chPost]
+  cases hpv : c2.panicking <;> cases ho : cfg.obs <;> cases hh : cfg.panicH <;>
+    simp only [Core.emit, hp, hpv] <;> rs_brute
+
+theorem callHandler_RS (h : RR rec) (r : Reg) (ty v root op d : Nat) (async : Bool) {s1 s2 : St R}
+    (hs : RS s1 s2) :
+    RS (callHandler cfg rec r ty v root op d async s1) (callHandler cfg rec r ty v root op d async s2) := by
+  rw [callHandler_eq, callHandler_eq]
+  have hn : s1.c.nextObs = s2.c.nextObs := ((norm_eq_iff _ _).mp hs.2).2.2.2.2.2.2.2.1
+  rw [hn]
+  exact chPost_RS cfg _ _ _ _ _ (bodyResult_RS cfg h _ _ _ _ _ _ _ hs)
+
+
+def PR (x y : St R × List Reg) : Prop := RS x.1 y.1 ∧ x.2 = y.2
+
+theorem dFilt_RS (d v : Nat) (r : Reg) {s1 s2 : St R} (hs : RS s1 s2) :
+    RS (dFilt d v r s1) (dFilt d v r s2) := by
+  obtain ⟨r1, c1⟩ := s1; obtain ⟨r2, c2⟩ := s2
+  simp only [dFilt]
+  split <;> rs_brute
+
+theorem dClaim_RS (r : Reg) {s1 s2 : St R} (hs : RS s1 s2) : RS (dClaim r s1) (dClaim r s2) := by
+  obtain ⟨r1, c1⟩ := s1; obtain ⟨r2, c2⟩ := s2
+  simp only [dClaim]
+  split <;> rs_brute
+
+theorem RS.live {s1 s2 : St R} (hs : RS s1 s2) (root : Nat) : s1.c.live root = s2.c.live root := by
+  have hp : s1.c.cancelled = s2.c.cancelled := ((norm_eq_iff _ _).mp hs.2).2.2.1
+  simp only [Core.live, hp]
+
+theorem RS.executed {s1 s2 : St R} (hs : RS s1 s2) : s1.c.executed = s2.c.executed :=
+  ((norm_eq_iff _ _).mp hs.2).2.1
+
+theorem deliver_RS (h : RR rec) (ty v root obs d : Nat) (r : Reg) {a1 a2 : St R × List Reg}
+    (ha : PR a1 a2) :
+    PR (deliver cfg rec ty v root obs d a1 r) (deliver cfg rec ty v root obs d a2 r) := by
+  obtain ⟨s1, cl1⟩ := a1; obtain ⟨s2, cl2⟩ := a2
+  obtain ⟨hs, hcl⟩ := ha
+  simp only at hs hcl
+  subst hcl
+  rw [deliver_eq, deliver_eq]
+  simp only
+  have h1 := dFilt_RS d v r hs
+  generalize dFilt d v r s1 = t1 at h1
+  generalize dFilt d v r s2 = t2 at h1
+  rw [h1.live root, h1.executed]
+  refine ite_pair PR (fun _ => ⟨h1, rfl⟩) (fun _ => ?_)
+  refine ite_pair PR (fun _ => ⟨h1, rfl⟩) (fun _ => ?_)
+  refine ite_pair PR (fun _ => ⟨h1, rfl⟩) (fun _ => ?_)
+  have h2 := dClaim_RS r h1
+  generalize dClaim r t1 = u1 at h2
+  generalize dClaim r t2 = u2 at h2
+  rw [h2.live root]
+  refine ite_pair PR (fun _ => ⟨?_, rfl⟩) (fun _ => ?_)
+  · obtain ⟨r1, c1⟩ := u1; obtain ⟨r2, c2⟩ := u2
+    rs_brute
+  refine ite_pair PR (fun _ => ⟨h2, rfl⟩) (fun _ => ⟨?_, rfl⟩)
+  exact callHandler_RS cfg h _ _ _ _ _ _ _ h2
+
+theorem loop_RS (h : RR rec) (ty v root obs d : Nat) (l : List Reg) {a1 a2 : St R × List Reg}
+    (ha : PR a1 a2) :
+    PR (l.foldl (deliver cfg rec ty v root obs d) a1) (l.foldl (deliver cfg rec ty v root obs d) a2) := by
+  induction l generalizing a1 a2 with
+  | nil => exact ha
+  | cons r l ih =>
+    simp only [List.foldl_cons]
+    exact ih (deliver_RS cfg h ty v root obs d r ha)
+
+theorem pubCtx_RS (fr : Frame) (sel : CtxSel) {s1 s2 : St R} (hs : RS s1 s2) :
+    (pubCtx fr sel s1).1 = (pubCtx fr sel s2).1 ∧ (pubCtx fr sel s1).2.1 = (pubCtx fr sel s2).2.1 ∧
+    RS (pubCtx fr sel s1).2.2 (pubCtx fr sel s2).2.2 := by
+  obtain ⟨r1, c1⟩ := s1; obtain ⟨r2, c2⟩ := s2
+  cases sel <;> simp only [pubCtx] <;> (try split) <;> rs_brute
+
+theorem pubPre_RS (d ty v obs0 : Nat) {s1 s2 : St R} (hs : RS s1 s2) :
+    RS (pubPre cfg d ty v obs0 s1) (pubPre cfg d ty v obs0 s2) := by
+  obtain ⟨r1, c1⟩ := s1; obtain ⟨r2, c2⟩ := s2
+  simp only [pubPre]
+  cases cfg.obs <;> cases cfg.hookBL <;> cases cfg.hookBC <;> rs_brute
+
+theorem persist_norm1 (d ty v : Nat) (bad : Bool) (op : Nat) (c : Core) :
+    norm (persist cfg d ty v bad op c) =
+      (if (cfg.store.isSome && !bad && cfg.obs) = true then
+        { (norm c).emit (.obs d .rs c.nextObs op ty false) with nextObs := c.nextObs + 1 }
+       else norm c) := by
+  simp only [persist]
+  cases cfg.store with
+  | none => rfl
+  | some sid =>
+    rcases Bool.eq_false_or_eq_true (c.appendFaults.head?.getD false) with hf | hf <;>
+    cases bad <;> cases cfg.obs <;> cases cfg.perrH <;>
+      simp [hf, norm, emitIf, Core.emit, isPersistEv]
+
+theorem persist_norm (d ty v : Nat) (bad : Bool) (op : Nat) {c1 c2 : Core} (hc : norm c1 = norm c2) :
+    norm (persist cfg d ty v bad op c1) = norm (persist cfg d ty v bad op c2) := by
+  have hn : c1.nextObs = c2.nextObs := ((norm_eq_iff _ _).mp hc).2.2.2.2.2.2.2.1
+  rw [persist_norm1, persist_norm1, hc, hn]
+
+theorem pubPost_RS (d ty v pid : Nat) {a1 a2 : St R × List Reg} (ha : PR a1 a2) :
+    RS (pubPost I cfg d ty v pid a1) (pubPost I cfg d ty v pid a2) := by
+  obtain ⟨⟨r1, c1⟩, cl1⟩ := a1; obtain ⟨⟨r2, c2⟩, cl2⟩ := a2
+  obtain ⟨hs, hcl⟩ := ha
+  simp only at hs hcl
+  subst hcl
+  simp only [pubPost]
+  cases cl1.isEmpty <;> cases cfg.obs <;> cases cfg.hookAL <;> cases cfg.hookAC <;> rs_brute
+
+theorem RS.nextObs {s1 s2 : St R} (hs : RS s1 s2) : s1.c.nextObs = s2.c.nextObs :=
+  ((norm_eq_iff _ _).mp hs.2).2.2.2.2.2.2.2.1
+
+theorem publish_RS (h : RR rec) (fr : Frame) (ty v : Nat) (bad : Bool) (sel : CtxSel) {s1 s2 : St R}
+    (hs : RS s1 s2) :
+    RS (publish I cfg rec fr ty v bad sel s1) (publish I cfg rec fr ty v bad sel s2) := by
+  rw [publish_eq, publish_eq]
+  simp only
+  obtain ⟨e1, e2, e3⟩ := pubCtx_RS fr sel hs
+  generalize pubCtx fr sel s1 = t1 at e1 e2 e3
+  generalize pubCtx fr sel s2 = t2 at e1 e2 e3
+  obtain ⟨root1, obs1, u1⟩ := t1; obtain ⟨root2, obs2, u2⟩ := t2
+  simp only at e1 e2 e3 ⊢
+  subst e1 e2
+  rw [e3.nextObs]
+  have h1 := pubPre_RS cfg fr.depth ty v obs1 e3
+  generalize pubPre cfg fr.depth ty v obs1 u1 = w1 at h1
+  generalize pubPre cfg fr.depth ty v obs1 u2 = w2 at h1
+  apply pubPost_RS
+  rw [h1.1]
+  apply loop_RS cfg h
+  exact ⟨⟨rfl, persist_norm cfg _ _ _ _ _ h1.2⟩, rfl⟩
+
+theorem runPending_RS (h : RR rec) (p : Pending) {s1 s2 : St R} (hs : RS s1 s2) :
+    RS (runPending cfg rec p s1) (runPending cfg rec p s2) := by
+  simp only [runPending]
+  rw [hs.live]
+  exact ite_pair RS (fun _ => hs) (fun _ => callHandler_RS cfg h _ _ _ _ _ _ _ hs)
+
+
+theorem step_RS (h : RR rec) : RR (step I cfg rec) := by
+  intro fr a s1 s2 hs
+  cases a <;> simp only [step]
+  case subscribe =>
+    obtain ⟨r1, c1⟩ := s1; obtain ⟨r2, c2⟩ := s2
+    rs_brute
+  case unsubscribe =>
+    rw [hs.1]
+    refine ite_pair RS (fun _ => ?_) (fun _ => ?_) <;>
+      (obtain ⟨r1, c1⟩ := s1; obtain ⟨r2, c2⟩ := s2; rs_brute)
+  case clear => exact ⟨by simp only [hs.1], hs.2⟩
+  case clearAll => exact ⟨by simp only [hs.1], hs.2⟩
+  case publish =>
+    have hc : s1.c.calls = s2.c.calls := ((norm_eq_iff _ _).mp hs.2).2.2.2.2.2.2.2.2.1
+    rw [hc]
+    refine ite_pair RS (fun _ => ?_) (fun _ => publish_RS I cfg h _ _ _ _ _ hs)
+    obtain ⟨r1, c1⟩ := s1; obtain ⟨r2, c2⟩ := s2; rs_brute
+  case cancel =>
+    refine ite_pair RS (fun _ => hs) (fun _ => ?_)
+    obtain ⟨r1, c1⟩ := s1; obtain ⟨r2, c2⟩ := s2; rs_brute
+  case cancelId =>
+    have hc : s1.c.nextCtx = s2.c.nextCtx := ((norm_eq_iff _ _).mp hs.2).2.2.2.1
+    rw [hc]
+    refine ite_pair RS (fun _ => hs) (fun _ => ?_)
+    obtain ⟨r1, c1⟩ := s1; obtain ⟨r2, c2⟩ := s2; rs_brute
+  case panic =>
+    refine ite_pair RS (fun _ => hs) (fun _ => ?_)
+    obtain ⟨r1, c1⟩ := s1; obtain ⟨r2, c2⟩ := s2; rs_brute
+  case has => obtain ⟨r1, c1⟩ := s1; obtain ⟨r2, c2⟩ := s2; rs_brute
+  case count => obtain ⟨r1, c1⟩ := s1; obtain ⟨r2, c2⟩ := s2; rs_brute
+  case readLog => obtain ⟨r1, c1⟩ := s1; obtain ⟨r2, c2⟩ := s2; rs_brute
+  case drain =>
+    refine ite_pair RS (fun _ => hs) (fun _ => ?_)
+    have hp : s1.c.pending = s2.c.pending := ((norm_eq_iff _ _).mp hs.2).2.2.2.2.1
+    cases hp2 : s2.c.pending with
+    | nil => rw [hp2] at hp; simp only [hp]; exact hs
+    | cons p ps =>
+      rw [hp2] at hp; simp only [hp]
+      apply h
+      apply runPending_RS cfg h
+      obtain ⟨r1, c1⟩ := s1; obtain ⟨r2, c2⟩ := s2; rs_brute
+
+theorem exec_RS (n : Nat) : RR (exec I cfg n) := by
+  induction n with
+  | zero =>
+    intro fr a s1 s2 hs
+    simp only [exec]
+    obtain ⟨r1, c1⟩ := s1; obtain ⟨r2, c2⟩ := s2; rs_brute
+  | succ n ih => intro fr a s1 s2 hs; exact step_RS I cfg ih fr a s1 s2 hs
+
+end rstep
+
+end Persist
+open Persist
 
 /-- C13: which handlers run, in which order, with which events and results of registry
 queries does not depend on whether appends fail: two runs that differ only in the fault
@@ -72,6 +833,18 @@ theorem delivery_independent_of_faults {R : Type} (I : RegImpl R) (cfg : Config)
     (f1 f2 : List Bool) (prog : List Action) :
     (run I cfg fuel f1 prog).c.trace.filter (fun e => !isPersistEv e) =
     (run I cfg fuel f2 prog).c.trace.filter (fun e => !isPersistEv e) := by
-  sorry
+  have h : RS (run I cfg fuel f1 prog) (run I cfg fuel f2 prog) := by
+    unfold run
+    have h0 : RS (initSt I f1) (initSt I f2) := ⟨rfl, rfl⟩
+    generalize initSt I f1 = s1 at h0
+    generalize initSt I f2 = s2 at h0
+    induction prog generalizing s1 s2 with
+    | nil => exact h0
+    | cons a as ih =>
+      simp only [List.foldl_cons]
+      exact ih _ _ (exec_RS I cfg fuel {} a s1 s2 h0)
+  have ht := ((norm_eq_iff _ _).mp h.2).2.2.2.2.2.1
+  simp only [Core.trace, List.filter_reverse, ht]
+
 
 end Ebu.Bus
